@@ -23,7 +23,7 @@ PROPERTY = "C02"
 
 META = {
     "bounds": {
-        "quick": "programs `*= p0; c0 := V0; back: ...`: every single item and every pair starting with {inferred constant, inferred label, .incbin, *=, @= RAM} over 17 item kinds (LoROM; singles under HiROM) (inferred-width instructions from a := constant / backward label / macro parameter / loop variable, explicit sizes, data, .ascii, .text, .incbin of symbolic length < 0x120, *= and @= moves into ROM and RAM), each item followed by a label; 6 wrappers; 10 name-reuse patterns; LoROM and HiROM; p0, move operands, V0 (24 bit) symbolic",
+        "quick": "programs `*= p0; c0 := V0; back: ...`: every single item and every pair starting with {inferred constant, inferred label, .incbin, *=, @= RAM} over 17 item kinds (LoROM; singles under HiROM) (inferred-width instructions from a := constant / backward label / macro parameter / loop variable, explicit sizes, data, .ascii, .text, .incbin of symbolic length < 0x120, *= and @= moves into ROM and RAM), each item followed by a label; 6 wrappers; 10 name-reuse patterns + 2 table-reload patterns (.text before a table its own scope / macro body loads later, code lengths differ); LoROM and HiROM; p0, move operands, V0 (24 bit) symbolic",
         "thorough": "all pairs, triples over the width-/position-relevant kinds + VERIF_SEED-drawn 150 programs of 4-5 items inside nested wrappers",
     },
     "outside": ["programs that leave the mapped ROM range", "forward references with inferred width (rejected by design)", ".incbin longer than the bound", "duplicate definitions in one scope"],
@@ -182,7 +182,18 @@ def _macro_param_shadow(b):
     return [("macrodef", "mm", ["back"], [("line", "lda back")] + b.label()), ("apply", "mm", "c0"), ("apply", "mm", "0x12")] + b.label()
 
 
+def _text_before_inner_table(b):
+    # .text ahead of a table that its own scope loads later: sized and emitted with the enclosing scope's table
+    return ([("line", "{"), ("line", ".text 'ab'")] + b.label() + [("line", ".table 'u.tbl'"), ("line", ".text 'ab'")] + b.label() + [("line", "{"), ("line", ".text 'ba'")] + b.label()
+            + [("line", "}"), ("line", "}"), ("line", ".text 'ab'")] + b.label())
+
+
+def _text_in_macro_loading_table(b):
+    return [("macrodef", "mm", ["mp"], [("line", ".text 'ab'")] + b.label() + [("line", ".table 'u.tbl'"), ("line", ".text 'ab'"), ("line", "lda mp")] + b.label()), ("apply", "mm", "c0"), ("line", ".text 'ab'"), ("apply", "mm", "0x12")] + b.label()
+
+
 REUSE = {
+    "text-before-inner-table": _text_before_inner_table, "text-in-macro-loading-table": _text_in_macro_loading_table,
     "label-after-use": _reuse_label_after, "label-before-use": _reuse_label_before, "in-named-scope": _reuse_in_scope,
     "in-loop": _reuse_in_loop, "in-macro": _reuse_in_macro, "symbol-shadow": _reuse_symbol, "assign-shadow": _reuse_assign,
     "sibling-labels": _sibling_labels, "nested-shadow": _nested_shadow, "macro-param-shadow": _macro_param_shadow,
@@ -297,7 +308,7 @@ def run(spec, cx):
         if not cx.symbolic:
             sb[t + "b"] = sa[t + "a"] ^ 0xFF
     uses_bin = any(st[0] == "line" and "incbin" in st[1] for st in _flat(stmts))
-    files = {"t.tbl": "41=a\n4243=b\n"}
+    files = {"t.tbl": "41=a\n4243=b\n", "u.tbl": "515253=a\n54=b\n"}
     if uses_bin:
         n = cx.int("n", 0, 0x11F)
         files["f.bin"] = cx.blob("f.bin", n)
